@@ -199,13 +199,36 @@ def run(ctx):
                         plans[expected]['match'] = mat
                     n_cases += 1
                     _scenario(ctx, cls, kind, expected, plans, n_chunks)
+    n_cases += query_invariance(ctx)
     rep.count('fault scenarios', n_cases, floor=300)
 
 
-def _scenario(ctx, cls, kind, expected, plans, n_chunks):
+def query_invariance(ctx):
+    """format / formats queried after every read must not change what the
+    inspectors are fed (also part of C01: queries made in between)."""
+    world = ctx.world
+    cls = world.cls(MOD, 'InspectWrapper')
+    names, n_chunks, n_cases = NAMES, 3, 0
+    decided = {n: {'complete': (True, True, True),
+                   'match': (n == 'qcow2',) * 3} for n in names}
+    undecided = {n: {'complete': (False, False, True),
+                     'match': (n == 'qcow2',) * 3} for n in names}
+    for kind in ('file', 'iter'):
+        for plans in (decided, undecided):
+            for extra in ({}, {'vhd': {0: 'ValueError'}}):
+                p = {n: dict(v) for n, v in plans.items()}
+                for n, f in extra.items():
+                    p[n]['fault'] = f
+                n_cases += 1
+                _scenario(ctx, cls, kind, None, p, n_chunks, query=True)
+    return n_cases
+
+
+def _scenario(ctx, cls, kind, expected, plans, n_chunks, query=False):
     rep, world = ctx.report, ctx.world
     faults = {n: p['fault'] for n, p in plans.items() if p.get('fault')}
-    label = '%s source, expected=%s, faults=%s, flags=%s' % (
+    label = '%s%s source, expected=%s, faults=%s, flags=%s' % (
+        'format queried after every read, ' if query else '',
         kind, expected, faults or '-',
         (plans.get(expected, {}).get('complete'),
          plans.get(expected, {}).get('match')) if expected in plans else '-')
@@ -229,6 +252,12 @@ def _scenario(ctx, cls, kind, expected, plans, n_chunks):
                     c = interp.call(interp.get_attr(w, '__next__'), [])
                 got.append(c)
                 interp.effect('delivered', K(i), interp.termify(c))
+                if query:
+                    for attr in ('formats', 'format'):
+                        try:
+                            interp.get_attr(w, attr)
+                        except AbsRaise:
+                            pass
             if kind == 'iter':
                 try:
                     interp.call(interp.get_attr(w, '__next__'), [])
